@@ -1666,3 +1666,77 @@ Example skip_window_instance :
   exists c, cf_compile w_dflt wsk_src = Some c /\
     map fst (fst (cf_outcome simple_rx c w_req)) = [10; 20; 60].
 Proof. eexists. split; [vm_compute; reflexivity|]. vm_compute. reflexivity. Qed.
+
+(* ================= a LIST of ctl target exclusions executed in one transaction ================= *)
+
+(* what the ctl family reads of the rule list: ids, tags and msg of the chain starters *)
+Definition rmeta (r : crule) : N * list bytes * option bytes := (cr_id r, cl_tags (cr_head r), cl_msg (cr_head r)).
+
+Lemma ids_where_meta (q : N * list bytes * option bytes -> bool) : forall A B,
+  map rmeta A = map rmeta B -> ids_where (fun r => q (rmeta r)) A = ids_where (fun r => q (rmeta r)) B.
+Proof.
+  unfold ids_where. induction A as [|a A IH]; intros [|b B] H; try discriminate; [reflexivity|].
+  cbn [map] in H. inversion H as [[H1 H2 H3 H4]]. cbn [filter].
+  replace (rmeta b) with (rmeta a) by (unfold rmeta; rewrite H1, H2, H3; reflexivity).
+  destruct (q (rmeta a)); cbn [map]; rewrite (IH B H4), ?H1; reflexivity.
+Qed.
+
+Lemma ids_where_meta' p (q : N * list bytes * option bytes -> bool) A B :
+  (forall r, p r = q (rmeta r)) -> map rmeta A = map rmeta B -> ids_where p A = ids_where p B.
+Proof.
+  intros Hp H. unfold ids_where.
+  rewrite (filter_ext' p (fun r => q (rmeta r)) A (fun r _ => Hp r)),
+          (filter_ext' p (fun r => q (rmeta r)) B (fun r _ => Hp r)).
+  exact (ids_where_meta q A B H).
+Qed.
+
+Lemma ctl_step_meta A B c st : map rmeta A = map rmeta B -> cf_ctl_step A c st = cf_ctl_step B c st.
+Proof.
+  intro H. destruct c as [[n|a b]|t|m|sp v k|t v k|m v k]; cbn [cf_ctl_step]; try reflexivity.
+  - rewrite (ids_where_meta' _ (fun x => mem_bytes t (snd (fst x))) A B (fun _ => eq_refl) H). reflexivity.
+  - rewrite (ids_where_meta' _ (fun x => opt_bytes_is (snd x) m) A B (fun _ => eq_refl) H). reflexivity.
+  - rewrite (ids_where_meta' _ (fun x => spec_has sp (fst (fst x))) A B (fun _ => eq_refl) H). reflexivity.
+  - rewrite (ids_where_meta' _ (fun x => mem_bytes t (snd (fst x))) A B (fun _ => eq_refl) H). reflexivity.
+  - rewrite (ids_where_meta' _ (fun x => opt_bytes_is (snd x) m) A B (fun _ => eq_refl) H). reflexivity.
+Qed.
+
+Lemma tgt_ids_meta A B c : map rmeta A = map rmeta B -> tgt_ids A c = tgt_ids B c.
+Proof.
+  intro H. destruct c as [| | |sp v k|t v k|m v k]; cbn [tgt_ids]; try reflexivity.
+  - rewrite (ids_where_meta' _ (fun x => spec_has sp (fst (fst x))) A B (fun _ => eq_refl) H). reflexivity.
+  - rewrite (ids_where_meta' _ (fun x => mem_bytes t (snd (fst x))) A B (fun _ => eq_refl) H). reflexivity.
+  - rewrite (ids_where_meta' _ (fun x => opt_bytes_is (snd x) m) A B (fun _ => eq_refl) H). reflexivity.
+Qed.
+
+Lemma rwT_meta ids v e rs : map rmeta (map (rwT ids v e) rs) = map rmeta rs.
+Proof.
+  rewrite map_map. apply map_ext. intro r. unfold rmeta. rewrite rwT_id, rwT_tags, rwT_msg. reflexivity.
+Qed.
+
+(* the rule list with the exclusions of every executed ctl written in (ids read from the ORIGINAL list
+   [all]: the rewriting never changes ids, tags or msgs) *)
+Fixpoint rw_list (all : list crule) (cs : list ctl) (rs : list crule) : list crule :=
+  match cs with
+  | [] => rs
+  | c :: t => map (rwT (tgt_ids all c) (tgt_var c) (tgt_exc c)) (rw_list all t rs)
+  end.
+
+Lemma rw_list_meta all cs rs : map rmeta (rw_list all cs rs) = map rmeta rs.
+Proof. induction cs as [|c t IH]; cbn [rw_list]; [reflexivity|]. rewrite rwT_meta. exact IH. Qed.
+
+(* after ANY list of ctl:ruleRemoveTarget* executions (one rule or several, any kinds and keys, the same
+   rule and collection hit repeatedly), the rest of the transaction behaves as over the rule list with
+   ALL the exclusions written into the selected rules *)
+Theorem ctl_target_list_equiv rx all cs : forall st rs ph phs rq,
+  forallb is_tgt_ctl cs = true ->
+  obs (cf_rest rx all rs ph phs rq (fold_left (fun s c => cf_ctl_step all c s) cs st))
+  = obs (cf_rest rx (rw_list all cs all) (rw_list all cs rs) ph phs rq st).
+Proof.
+  induction cs as [|c t IH]; intros st rs ph phs rq H; cbn [fold_left rw_list forallb] in *; [reflexivity|].
+  apply andb_true_iff in H as [Hc Ht].
+  rewrite (IH (cf_ctl_step all c st) rs ph phs rq Ht).
+  pose proof (rw_list_meta all t all) as Hm.
+  rewrite <- (ctl_step_meta (rw_list all t all) all c st Hm).
+  rewrite (ctl_target_equiv_rest rx (rw_list all t all) c st (rw_list all t rs) ph phs rq Hc).
+  rewrite (tgt_ids_meta (rw_list all t all) all c Hm). reflexivity.
+Qed.
